@@ -12,6 +12,15 @@ BY = 'Bytes'
 WEIGHTS = sorted(set(list(range(0, 13)) + [2 ** 63 - 1, 2 ** 63, 2 ** 64 - 1, 2 ** 64, 3 * 2 ** 63, 2 ** 65 - 2, 2 ** 65 - 1]))
 FLAG = [False, True]
 
+H1, H2 = bytes(range(32)), bytes([7] * 32)
+HASHES = [H1, H2, H1[:31], H1 + b'\x00', b'']
+PROOF_DATA = [b'', b'\x03' + H1 + b'\x00\x05', b'\x03' + H1 + b'\x05\x00', b'\x03' + H2 + b'\x00\x05', b'\x04' + H1 + b'\x00\x05',
+              b'\x03' + H1 + b'\x00\x05\x00', b'\x03' + H1 + b'\x00', b'\x03' + H1 + b'\x01\x00', H1 + b'\x03\x00\x05']
+UPDATE_DATA = [b'', b'\x04' + H2 + H1 + b'\x00\x01\x00\x02', b'\x04' + H1 + H2 + b'\x00\x01\x00\x02', b'\x04' + H2 + H1, b'\x04' + H2 + H1[:31],
+               b'\x04' + H1 + H1 + b'\x00\x01\x00\x02', H2 + H1 + b'\x04\x00\x01\x00\x02']
+KINDS = [-1, 0, 1, 2, 3, 4, 5]
+CP = 'pytoniq_core/proof/check_proof.py'
+
 GROUPS2 = {
     # ------------------------------------------------------------------ C12
     'SigCheck': dict(
@@ -26,6 +35,52 @@ GROUPS2 = {
               {'node_id in seen': ('seen', B)}, ['seen'], ret='Bool', ref='seen', grid={'seen': FLAG}),
             T('sigInvalid', None, 'check_block_signatures', ('raise_if', 'invalid signature'),
               {'result': ('ok', B)}, ['ok'], ret='Bool', ref='(!ok)', grid={'ok': FLAG}),
+        ]),
+    # ------------------------------------------------------------------ C11
+    'ProofChecks': dict(
+        src=CP, imports=['TonVerif.PyBytes'], ref_imports=[],
+        targets=[
+            T('cellTypeMerkleProof', 'CellTypes', None, ('class_attr', 'merkle_proof'), {}, [], ref='3', file='pytoniq_core/boc/exotic.py'),
+            T('cellTypeMerkleUpdate', 'CellTypes', None, ('class_attr', 'merkle_update'), {}, [], ref='4', file='pytoniq_core/boc/exotic.py'),
+            T('proofWrongType', None, 'check_proof', ('raise_if', 'Expected Merkle proof Cell'),
+              {'cell.type_': ('ty', Z), 'CellTypes.merkle_proof': ('mp', N)}, ['ty', 'mp'], ret='Bool',
+              ref='decide (ty ≠ (mp : Int))', grid={'ty': KINDS, 'mp': [3, 4]}),
+            T('proofWrongStoredHash', None, 'check_proof', ('raise_if', 'Provided invalid hash'),
+              {'cell.data': ('data', BY), 'hash_': ('h', BY)}, ['data', 'h'], ret='Bool',
+              ref='decide (Model.pySlice data 1 33 ≠ h)', grid={'data': PROOF_DATA, 'h': HASHES}),
+            T('proofWrongChildHash', None, 'check_proof', ('raise_if', 'Merkle proof is invalid'),
+              {'cell[0].get_hash(0)': ('h0', BY), 'hash_': ('h', BY)}, ['h0', 'h'], ret='Bool',
+              ref='decide (h0 ≠ h)', grid={'h0': HASHES, 'h': HASHES}),
+            T('proofMalformed', None, 'check_proof', ('raise_if', 'Malformed Merkle proof cell'),
+              {'len(cell.refs)': ('refs', N), 'len(cell.bits)': ('bits', N), 'cell.data': ('data', BY), 'hash_': ('h', BY),
+               'cell[0].get_depth(0)': ('d0', N)}, ['refs', 'bits', 'data', 'h', 'd0'], ret='Bool',
+              ref='decide (refs ≠ 1 ∨ bits ≠ 280 ∨ data ≠ [3] ++ h ++ natToBE 2 d0)', guard='d0 < 65536',
+              # <= 300 points, so that the per-run translator validation sees every one of them
+              grid={'refs': [0, 1, 2], 'bits': [277, 280, 281], 'data': PROOF_DATA[1:6], 'h': HASHES[:2], 'd0': [5, 1280, 65536]}),
+            T('hdrWrongHash', None, 'check_block_header_proof', ('raise_if', 'hashes unmatch'),
+              {'root_hash': ('rh', BY), 'block_hash': ('bh', BY)}, ['rh', 'bh'], ret='Bool',
+              ref='decide (rh ≠ bh)', grid={'rh': HASHES, 'bh': HASHES}),
+            T('hdrStateUncommitted', None, 'check_block_header_proof', ('raise_if', 'does not commit to the state hash'),
+              {'state_update.type_': ('ty', Z), 'CellTypes.merkle_update': ('mu', N), 'state_update.data': ('data', BY), 'state_hash': ('sh', BY)},
+              ['ty', 'mu', 'data', 'sh'], ret='Bool',
+              ref='decide (ty ≠ (mu : Int) ∨ Model.pySlice data 33 65 ≠ sh)', grid={'ty': KINDS, 'mu': [3, 4], 'data': UPDATE_DATA, 'sh': HASHES}),
+            T('acctWrongRootCount', None, 'check_account_proof', ('raise_if', 'expected 2 root cells'),
+              {'len(proof_cells)': ('n', N)}, ['n'], ret='Bool', ref='decide (n ≠ 2)', grid={'n': list(range(0, 8))}),
+            T('acctStateMismatch', None, 'check_account_proof', ('raise_if', 'state hashes mismatch'),
+              {'state_cell[0].get_hash(0)': ('h0', BY), 'state_hash': ('sh', BY)}, ['h0', 'sh'], ret='Bool',
+              ref='decide (h0 ≠ sh)', grid={'h0': HASHES, 'sh': HASHES}),
+            T('acctWrongAccount', None, 'check_account_proof', ('raise_if', 'account state proof invalid'),
+              {'account_state_root_proved[0].get_hash(0)': ('h0', BY), 'account_state_root.hash': ('ah', BY)}, ['h0', 'ah'], ret='Bool',
+              ref='decide (h0 ≠ ah)', grid={'h0': HASHES, 'ah': HASHES}),
+            T('shardSame', None, 'check_shard_proof', ('early_return',), {'blk == shrd_blk': ('same', B)}, ['same'], ret='Bool',
+              ref='same', grid={'same': FLAG}),
+            T('shardNotMasterchain', None, 'check_shard_proof', ('raise_if', 'expected masterchain block'),
+              {'blk.workchain': ('wc', Z)}, ['wc'], ret='Bool', ref='decide (wc ≠ -1)', grid={'wc': [-2, -1, 0, 1, 255]}),
+            T('shardWrongRootCount', None, 'check_shard_proof', ('raise_if', 'expected 2 root cells'),
+              {'len(shard_proof_cells)': ('n', N)}, ['n'], ret='Bool', ref='decide (n ≠ 2)', grid={'n': list(range(0, 8))}),
+            T('shardStateMismatch', None, 'check_shard_proof', ('raise_if', 'mc state hashes mismatch'),
+              {'mc_state_hash': ('mh', BY), 'state_hash': ('sh', BY)}, ['mh', 'sh'], ret='Bool',
+              ref='decide (mh ≠ sh)', grid={'mh': HASHES, 'sh': HASHES}),
         ]),
 }
 
